@@ -5,6 +5,7 @@ with the *generated* layout, render the logical dump.
 import Driver.Hist
 import Jamm.Model.FileCheck
 import Jamm.Model.EncodeWrites
+import Jamm.Model.EncodeMeta
 import Jamm.Gen.Layout
 import Jamm.Gen.HashOrder
 import Driver.Sha3
@@ -72,9 +73,18 @@ def writerAgrees (L : Layout) (s : Src) (pagesize : Nat) (p : LPage) : Bool :=
   | .branch es => (branchPageWrites L pagesize p.id p.overflow es).all (fun w => Src.holds s w)
   | _ => true
 
+/-- the header page: every field write of the model holds, and every other byte of the page is zero (the
+model zero-fills the page first, so its writes overlap: compare the net result) -/
+def metaPageAgrees (L : Layout) (s : Src) (pagesize : Nat) (mt : MetaRec) : Bool :=
+  let base := mt.metaPage * pagesize
+  let ws := (metaPageWrites L pagesize mt.metaPage mt).drop 1
+  ws.all (fun w => Src.holds s w) &&
+  (List.range pagesize).all (fun j =>
+    ws.any (fun w => w.1 ≤ base + j && base + j < w.1 + w.2.length) || s.get (base + j) == 0)
+
 /-- decode errors met while unfolding are turned into `notATree`; to report them precisely we probe
 the page store for the first decode error among pages reached -/
-def checkBytes (L : Layout) (order : List MetaField) (ba : ByteArray) (pagesize : Nat) : FileReport :=
+def checkBytes (L : Layout) (order : List MetaField) (ba : ByteArray) (pagesize : Nat) (writerTie : Bool := true) : FileReport :=
   let s := srcOf ba
   match openAny L order Gen.oldHashOrder Sha3.sha3_256 s pagesize with
   | .error e => { ok := false, msg := fmtFileErr (.open_ e) }
@@ -87,11 +97,24 @@ def checkBytes (L : Layout) (order : List MetaField) (ba : ByteArray) (pagesize 
     match checkFile mt pg ba.size pagesize with
     | .ok sum =>
       let pages := viewPages sum.root
-      match pages.find? (fun pid => match pg pid with
+      -- (the writer ties apply to files the real code wrote, not to deliberately damaged images)
+      match (if writerTie then pages else []).find? (fun pid => match pg pid with
           | some p => p.id != pid || !writerAgrees L s pagesize p
           | none => true) with
       | some pid => { ok := false, msg := s!"writer-layout:page={pid}: the bytes of this page are not what the model of write_node produces for the node it decodes to", numPages := mt.numPages, txId := mt.txId, fileSize := ba.size }
       | none =>
+      -- the header page in the current format and the free-list page must be what the model writer produces
+      let metaBad := match slotValid L order s pagesize mt.metaPage with
+        | some m => writerTie && m == mt && !metaPageAgrees L s pagesize mt
+        | none => false
+      let flBad := match pg mt.freelistPage with
+        | some p => match p.body with
+          | .freelist ids => writerTie && !(freelistPageWrites L pagesize p.id p.overflow ids).all (fun w => Src.holds s w)
+          | _ => false
+        | none => false
+      if metaBad then { ok := false, msg := s!"writer-layout:header page {mt.metaPage}: not the bytes the model of the header writer produces for the record it decodes to", numPages := mt.numPages, txId := mt.txId, fileSize := ba.size }
+      else if flBad then { ok := false, msg := s!"writer-layout:free-list page {mt.freelistPage}", numPages := mt.numPages, txId := mt.txId, fileSize := ba.size }
+      else
       { ok := true, msg := "ok", dump := dumpView sum.root true, numPages := mt.numPages, txId := mt.txId,
         free := sum.free.length, reach := sum.reach.length, fileSize := ba.size,
         reachPages := sum.reach ++ sum.freelistRun, freePages := sum.free, view := some sum.root, pagesReencoded := pages.length }
